@@ -113,6 +113,20 @@ def RecordingTSRegressor(tag=0):
     return _TS_CLS(tag=tag)
 
 
+_TS_DUAL_CLS = None
+
+
+def RecordingTSRegressorDual(tag=0):
+    """The time-series regressor double, additionally inheriting from scikit-learn's
+    RegressorMixin - as sktime's own TimeSeriesForestRegressor does."""
+    global _TS_DUAL_CLS
+    if _TS_DUAL_CLS is None:
+        base = make_recording_ts_regressor()
+        _TS_DUAL_CLS = type("_RecordingTSRegressorDualImpl", (RegressorMixin, base), {"__module__": __name__})
+        globals()["_RecordingTSRegressorDualImpl"] = _TS_DUAL_CLS
+    return _TS_DUAL_CLS(tag=tag)
+
+
 _FC_CLS = None
 
 
